@@ -39,6 +39,7 @@ class Report:
 
     # ------------------------------------------------------------------ recording
     def rule(self, name, desc, floor=1, unknown_ceiling=None):
+        self._last_rule = name
         self.rules.setdefault(name, {"desc": desc, "floor": floor, "count": 0, "ok": 0, "bad": 0,
                                      "unknown": 0, "unknown_ceiling": unknown_ceiling})
 
@@ -121,6 +122,14 @@ class Report:
             if b["key"] in seen:
                 continue
             seen.add(b["key"])
+            if b["key"] not in known_keys:
+                # a listed finding may be identified by the construct it is about (rule | function | assigned name) rather than by the full text of
+                # the statement, so that renaming a temporary on its right-hand side does not turn a recorded defect into a new one
+                for kk in list(known_keys.values()):
+                    pre = kk.get("key_prefix")
+                    if pre and b["key"].startswith(pre):
+                        known_keys[b["key"]] = kk
+                        break
             (listed if b["key"] in known_keys else new).append(b)
         wall = time.time() - self.t0
         lines = []
